@@ -14,6 +14,11 @@
 
 # define TBL_InitBuckC	 7	 /* Largest prime under 2**i, for some i. */
 # define TBL_MaxLoad	 5
+#if defined(ALDOR_VERIF) && defined(ALDOR_VERIF_TBL_MAXLOAD)
+/* Verification hook: reach the growth path with small tables. */
+# undef  TBL_MaxLoad
+# define TBL_MaxLoad	 ALDOR_VERIF_TBL_MAXLOAD
+#endif
 
 local Table	tblNew0		(TblHashFun, TblEqFun, int buckc);
 local void	tblEnlarge	(Table);
